@@ -41,8 +41,8 @@ CLAIMED = {
          "layout harness lengths bounded as stated in the evidence"),
  "C17": ("§4 C17", "FastaWriter/wrap.Force/FastaParser/Scanner are executed on records with symbolic descriptions and symbolic residues (printable minus '>') at lengths around the 70-column boundaries, 1-3 records per stream: same count, descriptions and residues; GenBank->FASTA conversion keeps residues and builds the documented description (also for slices).",
          "residue lengths are the listed concrete values; CRLF input is outside (gts never writes it)"),
- "C18": ("§4 C18", "Complement/Transcribe are executed on a symbolic byte (all 256 values per query) against a 16-letter base-set table written in the harness: complementary set, case, non-letters unchanged, involution up to U, Transcribe differs only at A.",
-         "regexp/suffixarray based Match/Search are covered only where stated in the evidence"),
+ "C18": ("§4 C18", "Complement/Transcribe are executed on a symbolic byte (all 256 values per query) against a 16-letter base-set table written in the harness; gts.Match is executed with 1-2 fully symbolic query bytes against 1-3 symbolic sequence letters: never panics, every reported segment is a match under base-set inclusion (literal bytes match only themselves), segments ascend without overlap and every match overlaps a reported one; gts.Search on symbolic sequences/queries returns exactly the ascending list of all overlapping case-insensitive occurrences.",
+         "regexp is replaced by a fixed-width class model of exactly the patterns Match builds, index/suffixarray by its contract (all occurrence offsets, unspecified order); the K class [gtuy] pinned by TestMatch is a listed known finding; counterexamples replay against the real regexp/suffixarray"),
  "C19": ("§4 C19", "LocationLess is proved irreflexive/asymmetric/transitive on triples of bounded shapes for all coordinates; FeatureSlice.Insert (real sort.Search) is proved to keep exactly the inserted features, sources first, in non-decreasing order; Within/Overlap/And/Or/Not/Key/strand filters and Filter against pointwise references.",
          "table sizes and shapes bounded; selector regexps are an uninterpreted predicate where used"),
 }
